@@ -152,7 +152,9 @@ def judge_grid_text(grid, fmt):
     from vf.gen.tokens import check_sequence
     fn = {"xlsx": sheets.render_xlsx, "ods": sheets.render_ods, "xls": sheets.render_xls}[fmt]
     try:
-        res = list(get_extractor("x." + fmt)(io.BytesIO(fn(grid)), "x." + fmt))
+        # every second ods grid carries cell comments (reported via sheet.annotations, not part of the sheet text)
+        kw = {"opts": {"comments": True}} if fmt == "ods" and len(grid["sheets"][0]["rows"]) % 2 == 0 else {}
+        res = list(get_extractor("x." + fmt)(io.BytesIO(fn(grid, **kw)), "x." + fmt))
         text = "\n".join(r.get_full_text() for r in res)
     except Exception as e:  # noqa
         return [("raised", f"{type(e).__name__}: {e}")]
